@@ -911,6 +911,29 @@ pub fn alt_spelling_call(r: &mut Rng) -> Call {
     Call { kind: "run".into(), rules, words, into: vec![], from: vec![] }
 }
 
+/// several `+` romanisers that match one and the same segment (the first one listed wins)
+pub fn plus_stack_call(r: &mut Rng) -> Call {
+    let pool = ["V:[+str] => +@{acute}", "V:[+long] => +@{macron}", "V:[+nasal] => +@{ogonek}", "C => +@{macron}", "C:[+hi, -bk] => +@{acute}", "V => +@{grave}"];
+    let mut idx: Vec<usize> = (0..pool.len()).collect();
+    r.shuffle(&mut idx);
+    let mut from: Vec<String> = idx.iter().take(r.range(2, 3)).map(|&i| pool[i].to_string()).collect();
+    if r.chance(1, 3) {
+        from.push("$ => *".to_string());
+    }
+    let wpool = ["'ka:.ta", "'tã", "ˈaː", "ca.ɲa", "'iː.ti", "ˈãː", "ta", "ˈca"];
+    let n = r.range(1, 4);
+    let words: Vec<String> = (0..n).map(|_| (*r.pick(&wpool[..])).to_string()).collect();
+    Call { kind: "run".into(), rules: vec![], words, into: vec![], from }
+}
+
+/// a word the reader refuses (at different stages of reading it), alone in a call: whatever the
+/// refusal leaves behind meets the next call on that thread
+pub fn refused_word_call(r: &mut Rng) -> Call {
+    let w: &str = *r.pick(&["ma12345", "pa123456.ta5", "ma55555", "ta5.pa99999", "k%ta", "ma5x", "t͡", "'", "pa..ta", "a᷄᷄᷄᷄᷄x)"][..]);
+    let rules = if r.chance(1, 2) { vec![] } else { vec![Group::anon(vec!["a > e".to_string()])] };
+    Call { kind: "run".into(), rules, words: vec![w.to_string()], into: vec![], from: vec![] }
+}
+
 /// corpus cross product sample: a test rule applied to a handful of test words
 pub fn corpus_call(d: &Data, r: &mut Rng) -> Call {
     let rule = r.pick(&d.test_rules).clone();
